@@ -182,8 +182,10 @@ def sources(ctx, navis, rng, tmp):
         x = F.mk_neuron(f, name='alpha%d' % ci, nid=4200 + ci, radius=rng.integers(0, 5, size=len(f['ids'])).astype(float))
         d = os.path.join(tmp, 'src%d' % ci)
         os.makedirs(d)
-        p = os.path.join(d, 'alpha%d_4200.swc' % ci)
-        navis.write_swc(x, p, write_meta=False)
+        # the file is NOT named after the neuron: what the file name says (through `fmt`) must win over the header metadata
+        meta = bool(rng.random() < 0.6)
+        p = os.path.join(d, 'beta%d_77.swc' % ci)
+        navis.write_swc(x, p, write_meta=meta)
         text = open(p).read()
         prec = int(rng.choice([16, 32, 64]))
         def canon(n):
@@ -221,8 +223,18 @@ def sources(ctx, navis, rng, tmp):
                 ctx.violation('read_swc yields a different node table for source kind %s' % k, desc, dict(got=canon(n)[:5], path=canon(base[1])[:5]))
         # fmt pattern: name / id from the file name
         st, n = guarded(lambda: navis.read_swc(d, fmt='{name}_{id:int}.swc', parallel=False)[0])
-        if st != 'ok' or n.name != 'alpha%d' % ci or n.id != 4200:
+        desc = dict(desc, write_meta=meta, file='beta%d_77.swc' % ci, neuron_name=x.name, neuron_id=x.id)
+        if st != 'ok' or n.name != 'beta%d' % ci or n.id != 77:
             ctx.violation('name/id are not parsed from the file name as the fmt pattern prescribes', desc, dict(name=getattr(n, 'name', None), id=getattr(n, 'id', None)) if st == 'ok' else n)
+        for kind in ('path', 'folder', 'zip'):
+            st, n = res[kind]
+            if st == 'ok' and n.name != 'beta%d_77' % ci:
+                ctx.violation('with the default fmt the name is not the file name (source kind %s)' % kind, desc, dict(name=n.name))
+            if st == 'ok' and meta and str(n.id) != str(x.id):
+                ctx.violation('id (as text) is not restored from the header metadata (source kind %s)' % kind, desc, dict(id=n.id, want=x.id))
+        st, n = guarded(lambda: navis.read_swc(z, fmt='{name}_{id:int}.swc', parallel=False)[0])
+        if st != 'ok' or n.name != 'beta%d' % ci or n.id != 77:
+            ctx.violation('name/id are not parsed from the file name inside a zip archive as the fmt pattern prescribes', desc, dict(name=getattr(n, 'name', None), id=getattr(n, 'id', None)) if st == 'ok' else n)
         dt = {16: (np.float16,), 32: (np.float32,), 64: (np.float64,)}[prec]
         if base[1].nodes.x.dtype not in dt:
             ctx.violation('coordinates are not read at the requested precision', desc, str(base[1].nodes.x.dtype))
